@@ -59,7 +59,8 @@ def shape_key(fail, passing, primary, minor, multi=("ver",), min_fail=6):
                 if d in conj:
                     continue
                 vals = sorted({str(f[d]) for f in fail})
-                if len(vals) != 1 and not (d in multi and len(fail) >= min_fail):
+                if len(vals) != 1 and not (d in multi and len(fail) >= 2 * min_fail and
+                                           all(sum(1 for f in fail if str(f[d]) == v) >= 3 for v in vals)):
                     continue
                 excl = sum(1 for p in remaining if str(p[d]) not in vals)
                 if excl == 0:
